@@ -18,7 +18,6 @@ import (
 	"bytes"
 	"context"
 	"crypto/tls"
-	"errors"
 	"fmt"
 	"io"
 	"math"
@@ -56,6 +55,7 @@ type vcliConn struct {
 	srvClosed bool
 	cliClosed bool
 	c2sTotal  int64
+	discarded int64
 	s2cTotal  int64
 	readMax   int // >0: a client Read returns at most this many bytes (fragmentation)
 	cc        atomic.Pointer[ClientConn]
@@ -94,7 +94,11 @@ func (c *vcliConn) Write(p []byte) (int, error) {
 		return 0, net.ErrClosed
 	}
 	if c.srvClosed {
-		return 0, errors.New("vcli: connection reset by peer")
+		// Like TCP after the peer's FIN: the local write still succeeds, the bytes go
+		// nowhere. (Failing here would let the client see a write error before it has read
+		// what the server sent ahead of closing, e.g. a GOAWAY.)
+		c.discarded += int64(len(p))
+		return len(p), nil
 	}
 	c.c2s = append(c.c2s, p...)
 	c.c2sTotal += int64(len(p))
@@ -210,21 +214,22 @@ func (d *vcliDelayer) Delay(name string) {
 const vcliUnlimited = math.MaxInt64
 
 type vcliStream struct {
-	id        uint32
-	win       int64 // send window the server has granted to the client on this stream (acknowledged settings)
-	dataBytes int64 // flow-controlled bytes of client DATA received
-	dataFrm   int
-	cliEnded  bool
-	srvEnded  bool
-	cliReset  bool
-	srvReset  bool
-	closed    bool // server view: no longer counts against MAX_CONCURRENT_STREAMS
-	hdrDone   bool
-	tag       string // x-vreq header of the request (harness bookkeeping)
-	method    string
-	clen      int64 // content-length header or -1
-	respSent  bool
-	errResp   bool // the server answered with a status that makes the client stop uploading
+	id                   uint32
+	win                  int64 // send window the server has granted to the client on this stream (acknowledged settings)
+	dataBytes            int64 // flow-controlled bytes of client DATA received
+	dataFrm              int
+	cliEnded             bool
+	srvEnded             bool
+	cliReset             bool
+	srvReset             bool
+	cliResetBeforeGoAway bool
+	closed               bool // server view: no longer counts against MAX_CONCURRENT_STREAMS
+	hdrDone              bool
+	tag                  string // x-vreq header of the request (harness bookkeeping)
+	method               string
+	clen                 int64 // content-length header or -1
+	respSent             bool
+	errResp              bool // the server answered with a status that makes the client stop uploading
 	// for classifying an overshoot as "frame in flight across a SETTINGS ACK"
 	winBeforeAck   int64
 	frameBeforeAck int64
@@ -456,6 +461,9 @@ func (sc *vcliSrvConn) onClientFrame(f h2ref.Frame) {
 		sc.logf("C>S RST_STREAM s=%d code=%d", f.StreamID, code)
 		sc.S.R.Event("client_rst_stream", 1)
 		if st := sh.streams[f.StreamID]; st != nil {
+			if !st.cliReset {
+				st.cliResetBeforeGoAway = !sh.goAwaySent
+			}
 			st.cliReset = true
 			sc.maybeClose(st)
 		}
@@ -881,6 +889,8 @@ type vcliSession struct {
 
 	OnNewConn func(sc *vcliSrvConn) // set before the first request
 
+	BodyReadAfterClose atomic.Int64
+
 	mu      sync.Mutex
 	conns   []*vcliSrvConn
 	Reqs    []*vcliReq
@@ -1013,12 +1023,19 @@ type vcliBody struct {
 	eofWithLast bool
 	closed      atomic.Bool
 	reads       atomic.Int64
+	rac         *atomic.Int64 // session counter: reads after Close
 }
 
 func (b *vcliBody) Read(p []byte) (int, error) {
 	b.reads.Add(1)
 	if b.closed.Load() {
-		return 0, errors.New("vcli: read on closed body")
+		// The Transport closes a request body in cleanupWriteRequest even when the attempt
+		// failed before anything was read (errClientConnUnusable) and then retries with the
+		// same body. A body that refuses reads after Close would fail such a retry; this one
+		// keeps working and counts the event.
+		if b.rac != nil {
+			b.rac.Add(1)
+		}
 	}
 	if b.remain == 0 {
 		return 0, io.EOF
@@ -1078,7 +1095,9 @@ func (s *vcliSession) NewReq(method string, bodyLen int64, declared bool, chunk 
 	ctx, cancel := context.WithCancel(context.Background())
 	rq.Cancel = cancel
 	var body io.ReadCloser
-	mk := func() io.ReadCloser { return &vcliBody{remain: bodyLen, chunk: chunk, eofWithLast: eofLast} }
+	mk := func() io.ReadCloser {
+		return &vcliBody{remain: bodyLen, chunk: chunk, eofWithLast: eofLast, rac: &s.BodyReadAfterClose}
+	}
 	if bodyLen >= 0 {
 		body = mk()
 	}
